@@ -5,6 +5,7 @@ import (
 	"encoding/json"
 	"flag"
 	"fmt"
+	"github.com/iotaledger/hive.go/ds/orderedmap"
 	"math/rand"
 	"os"
 	"runtime"
@@ -321,6 +322,54 @@ func setConc(args []string) int {
 		hung := waitAll(chs, 3*time.Second)
 		hangs += len(hung)
 		emit(enc, lg, s, hung, true)
+	}
+
+	// forced schedule: a Delete is held between its presence pre-check and the write lock (hook delete-after-precheck of the
+	// ordered map below the set) while the element is removed and added again; the
+	// Delete goes on; one more element is added afterwards.  Results and final contents (read by iterating) must fit one order.
+	orderedmap.VerifHook = nil
+	for _, second := range []string{"Delete"} { // (a Replace would have to wait: Set.Delete holds the set's read lock)
+		for _, first := range []int{1, 2} {
+			lg := &hlog{}
+			s := ds.NewSet[int]()
+			for _, x := range []int{1, 2} {
+				lg.add(core.Ev{"ev": "inv", "t": 6, "op": "Add", "a": x})
+				lg.add(core.Ev{"ev": "ret", "t": 6, "res": s.Add(x)})
+			}
+			gate := sched.NewGate()
+			orderedmap.VerifHook = func(p string) { gate.Wait(p) }
+			gate.Hold("delete-after-precheck")
+			chs := []chan struct{}{make(chan struct{})}
+			go func() {
+				defer close(chs[0])
+				lg.add(core.Ev{"ev": "inv", "t": 1, "op": "Delete", "a": first})
+				lg.add(core.Ev{"ev": "ret", "t": 1, "res": s.Delete(first)})
+			}()
+			for i := 0; i < 2000 && gate.Parked("delete-after-precheck") == 0; i++ {
+				time.Sleep(time.Millisecond)
+			}
+			gate.Free("delete-after-precheck")
+			if second == "Delete" {
+				lg.add(core.Ev{"ev": "inv", "t": 2, "op": "Delete", "a": first})
+				lg.add(core.Ev{"ev": "ret", "t": 2, "res": s.Delete(first)})
+			} else {
+				lg.add(core.Ev{"ev": "inv", "t": 2, "op": "Replace", "a": []any{}})
+				lg.add(core.Ev{"ev": "ret", "t": 2, "res": sortedInts(s.Replace(mkSet()))})
+			}
+			lg.add(core.Ev{"ev": "inv", "t": 3, "op": "Add", "a": first})
+			lg.add(core.Ev{"ev": "ret", "t": 3, "res": s.Add(first)})
+			gate.ReleaseAll()
+			hung := waitAll(chs, 3*time.Second)
+			hangs += len(hung)
+			if len(hung) == 0 {
+				lg.add(core.Ev{"ev": "inv", "t": 6, "op": "Add", "a": 3})
+				lg.add(core.Ev{"ev": "ret", "t": 6, "res": s.Add(3)})
+				lg.add(core.Ev{"ev": "inv", "t": 6, "op": "Size", "a": 0})
+				lg.add(core.Ev{"ev": "ret", "t": 6, "res": s.Size()})
+			}
+			emit(enc, lg, s, hung, true)
+			orderedmap.VerifHook = nil
+		}
 	}
 
 	// linearizability histories
